@@ -54,25 +54,30 @@ def configs(thorough):
     for L0 in (2, 3):
         for dmax in ((0, 1, 3) if thorough else (0, 1, 2)):
             for N0 in ((2, 5, 16) if thorough else (2, 5)):
-                for rmse in (0.5, 0.2):
+                for rmse in (0.5, 0.3):
                     for rates in ("given", "regressed"):
                         for cv in ("none", "one"):
                             for payoff in ("forward", "call2"):
                                 if not thorough:
-                                    # quick: a stated sub-lattice - drop half of the cv / payoff / rates crossings
-                                    if cv == "one" and (payoff == "call2" or rates == "regressed"):
+                                    # quick: a stated sub-lattice
+                                    if cv == "one" and payoff == "call2":
                                         continue
-                                    if payoff == "call2" and (rates == "regressed" or N0 == 2):
+                                    if (cv, payoff) != ("none", "forward") and (rates == "regressed" or N0 == 2):
+                                        continue
+                                    if rmse == 0.3 and not (L0 == 2 and dmax == 1 and N0 == 5 and rates == "given"
+                                                            and cv == "none" and payoff == "forward"):
                                         continue
                                 out.append({"sub": "adaptive", "L0": L0, "Lmax": L0 + dmax, "N0": N0, "rmse": rmse,
                                             "rates": rates, "cv": cv, "payoff": payoff, "df": 0.9, "notional": 2.5})
     return out
 
 
-def is_deep(c):
+def is_deep(c, thorough):
     """The sub-lattice explored one deviation deeper."""
-    return (c["cv"] == "none" and c["payoff"] == "forward" and c["rmse"] == 0.5 and c["N0"] in (2, 5)
-            and c["Lmax"] - c["L0"] in (1, 2) and c["L0"] == 2)
+    base = c["cv"] == "none" and c["payoff"] == "forward" and c["rmse"] == 0.5 and c["L0"] == 2
+    if thorough:
+        return base and c["N0"] in (2, 5) and c["Lmax"] - c["L0"] in (1, 3)
+    return base and ((c["N0"], c["Lmax"] - c["L0"], c["rates"]) in ((2, 1, "given"), (5, 2, "regressed")))
 
 
 def cases(tier):
@@ -84,7 +89,7 @@ def cases(tier):
         for i in range(nsh):
             out.append(dict(c, bound=base, shard=[i, nsh]))
     for c in configs(thorough):
-        if is_deep(c):
+        if is_deep(c, thorough):
             nsh = 16 if thorough else 8
             for i in range(nsh):
                 out.append(dict(c, bound=base + 1, shard=[i, nsh]))
